@@ -10,6 +10,7 @@ package main
 //	agg table <delim> <hist>         TableAggregator -> csv.WriteTable
 //	agg subkey <hist>                SubKeyCounter   -> csv.WriteSubCounter
 //	exit <readErrors> <aggNil> <parseErrors> <matched>     helpers.DetermineErrorState
+//	cmd / reduce / analyze / tbl     the command functions in process: c03cmd.go, c03reduce.go, c03analyze.go, c03tbl.go
 //
 // rows: records joined by `|`, a record = hex fields joined by `;` (`.` = no field), `_` = no record.
 // Every writer is run several times on the same aggregator: Go randomises map iteration per `range`, so a
